@@ -665,6 +665,28 @@ fn df20_as_bds05(cx: &Cx) {
             judge(*m, *h);
         }
     });
+    // headers coded in metres (M bit set): whatever altitude the decoder reports for the header, a payload is an
+    // airborne position only if it carries exactly that altitude - so the 25-ft steps around it must not be labelled
+    par_ranges(16, 4096, 64, |lo, hi| {
+        for k in lo..hi {
+            let hdr = (((k & 0xfc0) << 1) | 0x40 | (k & 0x3f)) as u16;
+            let f0 = df20_21(20, 0, 0, 0, hdr, &[0u8; 7], ADDR);
+            let Some(j0) = dj(cx, "bds05-in-DF20", &f0) else { continue };
+            let Some(h) = j0["altitude"].as_i64() else { continue };
+            let base = h.div_euclid(25) * 25;
+            for v in [base - 50, base - 25, base, base + 25, base + 50] {
+                if !(-1000..=50175).contains(&v) {
+                    continue;
+                }
+                let f = df20_21(20, 0, 0, 0, hdr, &me_bds05(11, 0, 0, ac12_q(v as i32), 0, 0, 93000, 51372), ADDR);
+                if let Some(j) = dj(cx, "bds05-in-DF20", &f) {
+                    if !j["bds05"].is_null() && v != h {
+                        bad(cx, "bds05-in-DF20", format!("DF20 whose metric header reads {h} ft labels a payload with altitude {v} ft as BDS 0,5 (frame {})", hexs(&f)), &f, json!({"me": v, "header": h}));
+                    }
+                }
+            }
+        }
+    });
     cx.rep.part("BDS 0,5 in DF20", cx.n.load(Ordering::Relaxed), json!({}));
 }
 
